@@ -48,6 +48,10 @@ func idxAlphabet(extra bool) (calls []e1.Call, ids [][]interface{}) {
 	ins(bD("_id", int32(3)))
 	ins(bD("_id", int32(2), "a", int32(1), "b", int32(0)))
 	ins(bD("a", int32(1)))
+	// a document whose own key list repeats a BSON-equal value must not collide with itself
+	ins(bD("_id", int32(3), "a", bson.A{int32(2), 2.0}))
+	ins(bD("_id", int32(1), "a", bson.A{"x", "y", "x"}))
+	add(cUpdate("d", "c", false, bD("_id", int32(2)), bD("$push", bD("a", int32(2))), false))
 	add(cUpdate("d", "c", false, bD("_id", int32(2)), bD("$set", bD("a", int32(1))), false))
 	add(cUpdate("d", "c", false, bD("_id", int32(2)), bD("$set", bD("a", int32(2))), false))
 	add(cUpdate("d", "c", true, bD(), bD("$set", bD("a", int32(1))), false))
@@ -71,6 +75,17 @@ func idxAlphabet(extra bool) (calls []e1.Call, ids [][]interface{}) {
 	}
 	add(cBulk("d", "c", true, "ins{3,a:1};upd{1->a:5};ins{4,a:1}", bulk), int32(3), int32(4))
 	add(cBulk("d", "c", false, "ins{3,a:1};upd{1->a:5};ins{4,a:1}", bulk), int32(3), int32(4))
+	bulk2 := func() []mongo.WriteModel {
+		return []mongo.WriteModel{
+			mongo.NewUpdateManyModel().SetFilter(bD()).SetUpdate(bD("$set", bD("a", int32(5)))),
+			mongo.NewInsertOneModel().SetDocument(bD("_id", int32(4), "a", 7.0)),
+			mongo.NewInsertOneModel().SetDocument(bD("_id", int32(8), "a", 1.0)),
+			mongo.NewUpdateOneModel().SetFilter(bD("_id", int32(1))).SetUpdate(bD("$set", bD("a", int32(2)))),
+			mongo.NewInsertOneModel().SetDocument(bD("_id", int32(5), "a", int64(2))),
+		}
+	}
+	add(cBulk("d", "c", false, "updMany{a:5};ins{4,a:7.0};ins{8,a:1.0};upd{1->a:2};ins{5,a:2L}", bulk2), int32(4), int32(8), int32(5))
+	add(cBulk("d", "c", true, "updMany{a:5};ins{4,a:7.0};ins{8,a:1.0};upd{1->a:2};ins{5,a:2L}", bulk2), int32(4), int32(8), int32(5))
 	add(cInsertMany("d", "c", false, bD("_id", int32(5), "a", int32(7)), bD("_id", int32(6), "a", 7.0), bD("_id", int32(7), "a", int32(8))), int32(5), int32(6), int32(7))
 	add(cDelete("d", "c", false, bD("_id", int32(1))))
 	add(cDelete("d", "c", true, bD("a", int32(1))))
@@ -95,10 +110,13 @@ func idxAlphabet(extra bool) (calls []e1.Call, ids [][]interface{}) {
 	add(cReload())
 	if extra {
 		// C15: index-management corner cases
-		add(cCreateIndex("d", "c", bD("a", int32(1)), idxOpt{}))                     // same key, not unique: conflicts with a_1 unique
-		uniq(bD("a", int32(1)), idxOpt{unique: true, name: "other"}) // same key under another name
-		add(cCreateIndex("d", "c", bD("b", int32(1)), idxOpt{name: "a_1"}))          // same name, other key
+		add(cCreateIndex("d", "c", bD("a", int32(1)), idxOpt{}))            // same key, not unique: conflicts with a_1 unique
+		uniq(bD("a", int32(1)), idxOpt{unique: true, name: "other"})        // same key under another name
+		add(cCreateIndex("d", "c", bD("b", int32(1)), idxOpt{name: "a_1"})) // same name, other key
 		add(cCreateIndex("d", "c", bD("b", int32(-1)), idxOpt{}))
+		uniq(bD("a", int32(1)), idxOpt{unique: true, name: "part"})                                         // name and key of "part" without its partial filter
+		uniq(bD("a", int32(1)), idxOpt{unique: true, partial: bD("b", bD("$gt", int32(0)))})                // name and key of a_1 with a partial filter
+		uniq(bD("a", int32(1)), idxOpt{unique: true, partial: bD("b", bD("$gt", int32(1))), name: "part"}) // another partial filter
 		add(cCreateIndex("d", "c", bD("t", int32(1)), idxOpt{expire: i32(3600)}))
 		add(cDropIndex("d", "c", "_id_"))
 		add(cDropIndex("d", "c", "nope"))
@@ -329,4 +347,3 @@ func callKind(name string) string {
 	}
 	return name
 }
-
